@@ -287,6 +287,45 @@ fn gen_key(rng: &mut StdRng) -> Value {
     }
 }
 
+/// queries that reach the block-WAND paths with a threshold that bites: conjunctions and unions of 4..6 plain term
+/// queries on `body` (TermIntersection / TermUnion), and mixed trees around them
+fn gen_wand_query(rng: &mut StdRng) -> Value {
+    let b = |rng: &mut StdRng| {
+        let mut i = 0;
+        while i < 7 && rng.random_bool(0.6) { i += 1; }
+        json!({"k":"term","f":"body","t":format!("b{i}"),"opt":"freq"})
+    };
+    let distinct = |rng: &mut StdRng, n: usize| -> Vec<Value> {
+        let mut ix: Vec<usize> = (0..8).collect();
+        ix.shuffle(rng);
+        ix.truncate(n);
+        ix.into_iter().map(|i| json!({"k":"term","f":"body","t":format!("b{i}"),"opt":"freq"})).collect()
+    };
+    let n = rng.random_range(4..=6);
+    match rng.random_range(0..12) {
+        0..=4 => qlib::bool_json(distinct(rng, n).into_iter().map(|q| json!({"o":"must","q":q})).collect(), None),
+        5..=7 => qlib::bool_json(distinct(rng, n).into_iter().map(|q| json!({"o":"should","q":q})).collect(), None),
+        8 => json!({"k":"boost","b":2.0,"q":qlib::bool_json(distinct(rng, n).into_iter().map(|q| json!({"o":"must","q":q})).collect(), None)}),
+        9 => {
+            // conjunction with an optional clause / an exclusion: leaves the specialised path, same answer expected
+            let mut cl: Vec<Value> = distinct(rng, 4).into_iter().map(|q| json!({"o":"must","q":q})).collect();
+            cl.push(json!({"o": if rng.random_bool(0.5) {"should"} else {"mustnot"}, "q": b(rng)}));
+            qlib::bool_json(cl, None)
+        }
+        10 => qlib::bool_json(distinct(rng, n).into_iter().map(|q| json!({"o":"should","q":q})).collect(), Some(rng.random_range(2..4))),
+        _ => {
+            // a conjunction nested in a union and the other way round
+            let inner = qlib::bool_json(distinct(rng, 4).into_iter().map(|q| json!({"o":"must","q":q})).collect(), None);
+            if rng.random_bool(0.5) {
+                qlib::bool_json(vec![json!({"o":"should","q":inner}), json!({"o":"should","q":b(rng)})], None)
+            } else {
+                let u = qlib::bool_json(distinct(rng, 4).into_iter().map(|q| json!({"o":"should","q":q})).collect(), None);
+                qlib::bool_json(vec![json!({"o":"must","q":u}), json!({"o":"must","q":b(rng)}), json!({"o":"must","q":b(rng)})], None)
+            }
+        }
+    }
+}
+
 fn gen_scoring_query(rng: &mut StdRng) -> Value {
     let tok = |rng: &mut StdRng| -> String {
         if rng.random_bool(0.15) { "all".to_string() } else if rng.random_bool(0.1) { qlib::RARE.choose(rng).unwrap().0.to_string() } else {
@@ -346,7 +385,8 @@ fn search(a: &Args, tracer: &Tracer) {
     };
     let nq = if fixed.is_empty() { nq } else { fixed.len() };
     for qi in 0..nq {
-        let qj = if fixed.is_empty() { gen_scoring_query(&mut rng) } else { fixed[qi]["q"].clone() };
+        let wand = a.flag("wand");
+        let qj = if !fixed.is_empty() { fixed[qi]["q"].clone() } else if wand { gen_wand_query(&mut rng) } else { gen_scoring_query(&mut rng) };
         let q = match qlib::build_query(&schema, &qj) {
             Ok(q) => q,
             Err(e) => {
@@ -355,7 +395,10 @@ fn search(a: &Args, tracer: &Tracer) {
             }
         };
         let n = qlib::leaves(&qj);
-        let mut key = if fixed.is_empty() { gen_key(&mut rng) } else { fixed[qi]["key"].clone() };
+        let mut key = if !fixed.is_empty() { fixed[qi]["key"].clone() } else if wand {
+            // pruning only happens when ranking by score
+            match rng.random_range(0..8) { 0 => json!({"kind":"tweak_mul","cmp":["natural"]}), _ => json!({"kind":"score","cmp":["natural"]}) }
+        } else { gen_key(&mut rng) };
         if key["kind"] == "pair" && n > 2 {
             key = json!({"kind":"score","cmp":["natural"]});
         }
@@ -374,8 +417,9 @@ fn search(a: &Args, tracer: &Tracer) {
                     plan.push((p[0].as_u64().unwrap() as usize, p[1].as_u64().unwrap() as usize));
                 }
             }
-            for _ in 0..(if fixed.is_empty() { 3 } else { 0 }) {
-                let k = *[1usize, 2, 3, 5, 10, 50, 100, 1000, 5000].choose(&mut rng).unwrap();
+            for _ in 0..(if !fixed.is_empty() { 0 } else if wand { 5 } else { 3 }) {
+                let k = if wand { *[1usize, 1, 2, 3, 5, 10, 20, 50, 100, 500, nall + 5].choose(&mut rng).unwrap() }
+                        else { *[1usize, 2, 3, 5, 10, 50, 100, 1000, 5000].choose(&mut rng).unwrap() };
                 let off = *[0usize, 0, 0, 1, 7, 90, nall.saturating_sub(1), nall, nall + 3].choose(&mut rng).unwrap();
                 plan.push((k, off));
             }
